@@ -1,2 +1,11 @@
 #!/bin/sh
-exit 0
+# Build the framework from files on disk only (offline): the vfacts rustc_private driver,
+# then a first extraction of facts for the whole workspace, which also warms the
+# cargo target directory the checks reuse (.cache/target). Nothing from /repo is run.
+set -e
+cd "$(dirname "$0")"
+export CARGO_NET_OFFLINE=true
+mkdir -p .cache evidence out/replay
+( cd vfacts && cargo build --release --offline )
+test -x vfacts/target/release/vfacts
+python3 rules/facts.py
